@@ -21,7 +21,9 @@ static int expect_no_diag;
 #define VERIF_ON_EXIT(code) VASSERT(!expect_no_diag, "no diagnostic on a well-formed directive sequence")
 #define VERIF_PACKED_SPELLING 1
 // native replays run the real eval_const_expr: its const_expr() import yields the bit of the operand token
-#define VERIF_CONST_EXPR(tok) ((tok)->val == verif_spell("1"))
+// (and records, like the cbmc-mode cut below, that the expression of that line was evaluated)
+static _Bool evaluated[NITEMS];     // the controlling expression of line i was evaluated
+#define VERIF_CONST_EXPR(tok) (((tok)->line_no >= 0 && (tok)->line_no < NITEMS ? (evaluated[(tok)->line_no] = 1) : 0), (tok)->val == verif_spell("1"))
 #include "common.h"
 #include "pp_env.h"
 // strndup is only used by #undef / #define / #include "..." handling: unreachable with this alphabet
@@ -99,6 +101,7 @@ static Token *build(void) {
 long stub_eval_const_expr(Token **rest, Token *tok) {
   Token *t = tok->next;
   *rest = t->next;
+  if (tok->line_no >= 0 && tok->line_no < NITEMS) evaluated[tok->line_no] = true;
   return t->val == verif_spell("1");
 }
 // find_macro replacement (same contract, reads the packed spelling instead of the characters)
@@ -141,6 +144,8 @@ static bool cond_of(int i) {
   return k == I_IFDEF ? d : !d;
 }
 static bool ref_sel[NITEMS];          // text line i is selected
+static bool ref_eval[NITEMS];         // the controlling expression of #if/#elif line i is evaluated (6.10.1p6: not in a skipped
+                                      // group, and an #elif only while no earlier group of its chain was taken)
 static int depth_before[NITEMS + 1];  // nesting depth before line i
 static bool reference(void) {         // returns well-formedness (C11 6.10 grammar, nesting <= MAXNEST)
   bool par[MAXNEST], taken[MAXNEST], cur[MAXNEST], els[MAXNEST];
@@ -150,15 +155,18 @@ static bool reference(void) {         // returns well-formedness (C11 6.10 gramm
     int k = IN.it[i].kind;
     bool act = d == 0 || (par[d - 1] && cur[d - 1]);
     ref_sel[i] = false;
+    ref_eval[i] = false;
     if (i >= nlines) continue;
     if (k == I_DEFINE) { ref_sel[i] = act; continue; }     // (guard harness) an active #define is an effect
     if (IS_OPENER(k)) {
       if (d == MAXNEST) return false;
       bool c = cond_of(i);
+      if (k == I_IF) ref_eval[i] = act;
       par[d] = act; taken[d] = c; cur[d] = c; els[d] = false;
       d++;
     } else if (k == I_ELIF) {
       if (d == 0 || els[d - 1]) return false;
+      ref_eval[i] = par[d - 1] && !taken[d - 1];
       cur[d - 1] = !taken[d - 1] && cond_of(i);
       if (cur[d - 1]) taken[d - 1] = true;
     } else if (k == I_ELSE) {
@@ -240,6 +248,9 @@ static void run_select(bool allow_junk) {
   TRY(out = preprocess2(in));
   if (verif_diag) return;
   VASSERT(cond_incl == NULL, "conditional stack empty after a balanced sequence");
+  for (int i = 0; i < NITEMS; i++)
+    if (IN.it[i].kind == I_IF || IN.it[i].kind == I_ELIF)
+      VASSERT(evaluated[i] == ref_eval[i], "a controlling expression is evaluated exactly when C11 6.10.1p6 says so: not inside a skipped group, and an #elif only while no earlier group of its chain was taken (`#elif 1/N` after a taken `#ifndef N` must not be evaluated)");
   Token *t = out;
   bool junk_seen = false;
   for (int i = 0; i < NITEMS; i++) {
